@@ -95,9 +95,11 @@ pub async fn run_case(case: Vec<String>, detail: bool) -> String {
     let endpoint = builder.build();
 
     let method = if kind == "inv" { "INVITE" } else { "OPTIONS" };
+    // the To header can be given among the extra headers (token display name, port, URI parameters ...)
+    let to_line = if extra_headers.to_ascii_lowercase().contains("\nto:") || extra_headers.to_ascii_lowercase().starts_with("to:") { "" } else { "To: <sip:bob@example.org>\r\n" };
     let text = format!(
-        "{m} sip:bob@10.9.9.9;transport=udp SIP/2.0\r\nFrom: \"Al\" <sip:al@example.org;x=1>;tag=ft1\r\nTo: <sip:bob@example.org>\r\nCall-ID: cid-77\r\nCSeq: 4711 {m}\r\nMax-Forwards: 70\r\n{extra}Content-Length: 0\r\n\r\n",
-        m = method, extra = extra_headers
+        "{m} sip:bob@10.9.9.9;transport=udp SIP/2.0\r\nFrom: \"Al\" <sip:al@example.org;x=1>;tag=ft1\r\n{to}Call-ID: cid-77\r\nCSeq: 4711 {m}\r\nMax-Forwards: 70\r\n{extra}Content-Length: 0\r\n\r\n",
+        m = method, to = to_line, extra = extra_headers
     );
     let request = request_from_text(&endpoint, text.as_bytes());
     let mut target = TargetTransportInfo { via_host_port: None, transport: Some((tp.clone(), dest)) };
